@@ -56,24 +56,47 @@ def confirm(wt, sid):
     print(json.dumps(out, indent=1))
 
 
-def check(sid, props, tier="quick"):
+def check(sid, props, tier="quick", inplace=False):
+    """run checks against the seeded change. Default: isolated (scratch worktree of /repo with the patch applied, private
+    build/lean/evidence dirs) so that concurrent work on /repo is not disturbed; --inplace applies it to /repo itself."""
+    import os
     patch = ROOT / "seeded" / sid / "patch.diff"
-    assert sh("git -C /repo status --short -- src").stdout.strip() == "", "/repo not clean"
-    a = sh(f"git -C /repo apply {patch}")
+    env = dict(os.environ)
+    scratch = Path(f"/tmp/seedrun/{sid}")
+    if inplace:
+        assert sh("git -C /repo status --short -- src").stdout.strip() == "", "/repo not clean"
+        a = sh(f"git -C /repo apply {patch}")
+    else:
+        sh(f"git -C /repo worktree remove --force {scratch}/repo")
+        shutil.rmtree(scratch, ignore_errors=True)
+        scratch.mkdir(parents=True)
+        sh(f"git -C /repo worktree add --detach {scratch}/repo HEAD")
+        a = sh(f"git -C {scratch}/repo apply {patch}")
+        sh(f"rsync -a {ROOT}/lean/ {scratch}/lean/")
+        (scratch / "build").mkdir()
+        # reuse the already configured library build as a starting point (ninja rebuilds what differs)
+        env.update(VERIF_REPO=f"{scratch}/repo", VERIF_LEAN=f"{scratch}/lean", VERIF_BUILD=f"{scratch}/build",
+                   VERIF_EVID=f"{scratch}/ev", VERIF_REPLAYS=f"{scratch}/rp")
     if a.returncode:
         print("patch does not apply:", a.stderr)
         return
     res = {}
     try:
         for p in props:
-            r = sh(f"python3 {ROOT}/tools/vcheck.py --prop {p} --tier {tier}", cwd=ROOT, timeout=3600)
+            r = sh(f"python3 {ROOT}/tools/vcheck.py --prop {p} --tier {tier}", cwd=ROOT, timeout=7200, env=env)
             lines = [l for l in r.stdout.splitlines() if l.startswith("VIOLATION") or "violation:" in l or " OK:" in l]
             res[p] = {"exit": r.returncode, "lines": [l[:400] for l in lines[:4]]}
             print(p, "exit", r.returncode)
             for l in lines[:4]:
                 print("   ", l[:400])
+            if r.returncode not in (0, 1):
+                print(r.stdout[-1500:], r.stderr[-1500:])
     finally:
-        sh("git -C /repo checkout -- .")
+        if inplace:
+            sh("git -C /repo checkout -- .")
+        else:
+            sh(f"git -C /repo worktree remove --force {scratch}/repo")
+            shutil.rmtree(scratch, ignore_errors=True)
     mp = ROOT / "seeded" / sid / "meta.json"
     meta = json.loads(mp.read_text()) if mp.exists() else {}
     meta.setdefault("verif_checks", {}).update(res)
@@ -89,4 +112,7 @@ if __name__ == "__main__":
         if "--thorough" in args:
             args.remove("--thorough")
             tier = "thorough"
-        check(sys.argv[2], args, tier)
+        inplace = "--inplace" in args
+        if inplace:
+            args.remove("--inplace")
+        check(sys.argv[2], args, tier, inplace)
